@@ -58,7 +58,7 @@ Lemma last_line_sorted d s : sorted_st s -> res_sorted (last_line_or_add d s).
 Proof. intros H. unfold last_line_or_add. destruct (last_line s); [exact H|apply add_line_sorted; exact H]. Qed.
 
 Lemma note_sorted s : sorted_st s -> sorted_st (note_observe_lines s).
-Proof. apply sorted_core. unfold note_observe_lines. destruct (g_line_debt _); reflexivity. Qed.
+Proof. apply sorted_core. reflexivity. Qed.
 
 Lemma emit_error_sorted s k : sorted_st s -> sorted_st (emit_error s k).
 Proof. apply sorted_core. reflexivity. Qed.
@@ -153,7 +153,7 @@ Proof.
   - (* ORollback *)
     destruct (s_cp s) as [k|]; [|apply emit_error_sorted; exact H].
     cbn [res_sorted]. unfold sorted_st in *. cbn. apply desc_truncate. exact H.
-  - (* OEmitError *) apply emit_error_sorted, note_sorted, H.
+  - (* OEmitError *) apply emit_error_sorted, H.
   - (* OPrepError *) cbn. eapply sorted_core; [|apply note_sorted; exact H]. reflexivity.
   - (* OEmitPreparedError *) destruct (s_perr s); [|exact H]. revert H; apply sorted_core; reflexivity.
   - (* OSetMnl *) revert H; apply sorted_core; reflexivity.
